@@ -517,7 +517,7 @@ pub fn run(opts: &Opts) -> i32 {
     for sh in 0..shards {
         let dir = dir.clone();
         handles.push(std::thread::spawn(move || {
-            run_child(&["racechild".into(), format!("out={dir}"), format!("shard={sh}"), format!("seed={seed}"), format!("n={n}")], 120 + n * 30)
+            run_child(&["racechild".into(), format!("out={dir}"), format!("shard={sh}"), format!("seed={seed}"), format!("n={n}")], 400 + n * 60)
         }));
     }
     let mut all = std::collections::BTreeMap::<String, u64>::new();
